@@ -45,6 +45,7 @@ use vcommon::*;
 struct C15;
 
 const RESOLUTION_DELAY: u64 = 50;
+const PROXY_HOST: &str = "proxy.example.test";
 
 #[derive(Clone, Debug, PartialEq)]
 enum Res {
@@ -113,6 +114,7 @@ struct World {
     t0: Instant,
     group: usize,
     calls: Vec<(u8, u64)>,
+    lookup_hosts: Vec<String>,
     slots: [Slot; 2],
     imm: [Option<Res>; 2],
     attempts: Vec<Attempt>,
@@ -154,8 +156,9 @@ impl Drop for SlotFut {
     }
 }
 impl Scripted {
-    fn issue(&self, f: usize) -> SlotFut {
+    fn issue(&self, f: usize, host: String) -> SlotFut {
         let mut w = self.0.lock().unwrap();
+        w.lookup_hosts.push(host);
         let t = (now_ns(&w) / 1_000_000) as u64;
         let g = w.group;
         w.calls.push((if f == 0 { 4 } else { 6 }, t));
@@ -171,8 +174,8 @@ impl Scripted {
     }
 }
 impl Resolver for Scripted {
-    fn lookup_ipv4(&self, _host: String) -> BoxFuture<Result<BoxIter<Ipv4Addr>, DnsError>> {
-        let f = self.issue(0);
+    fn lookup_ipv4(&self, host: String) -> BoxFuture<Result<BoxIter<Ipv4Addr>, DnsError>> {
+        let f = self.issue(0, host);
         Box::pin(async move {
             match f.await {
                 Res::Ok(ids) => Ok(Box::new(ids.into_iter().map(v4_of)) as BoxIter<Ipv4Addr>),
@@ -180,8 +183,8 @@ impl Resolver for Scripted {
             }
         })
     }
-    fn lookup_ipv6(&self, _host: String) -> BoxFuture<Result<BoxIter<Ipv6Addr>, DnsError>> {
-        let f = self.issue(1);
+    fn lookup_ipv6(&self, host: String) -> BoxFuture<Result<BoxIter<Ipv6Addr>, DnsError>> {
+        let f = self.issue(1, host);
         Box::pin(async move {
             match f.await {
                 Res::Ok(ids) => Ok(Box::new(ids.into_iter().map(v6_of)) as BoxIter<Ipv6Addr>),
@@ -285,6 +288,7 @@ struct Run {
     end_group: usize,
     attempts: Vec<Attempt>,
     calls: Vec<(u8, u64)>,
+    lookup_hosts: Vec<String>,
     dns: [Option<(Res, u64, usize)>; 2],
     dns_issued: [u32; 2],
 }
@@ -368,7 +372,7 @@ fn run_case(prefer_v6: bool, path: PathKind, host: &str, imm: [Option<Res>; 2], 
     let rt = tokio::runtime::Builder::new_current_thread().enable_all().start_paused(true).build().unwrap();
     let res = rt.block_on(async {
         let t0 = Instant::now();
-        let shared: Shared = Arc::new(Mutex::new(World { t0, group: 0, calls: vec![], slots: Default::default(), imm, attempts: vec![], pool }));
+        let shared: Shared = Arc::new(Mutex::new(World { t0, group: 0, calls: vec![], lookup_hosts: vec![], slots: Default::default(), imm, attempts: vec![], pool }));
         let resolver = DnsResolver::custom(Scripted(shared.clone()));
         let sh2 = shared.clone();
         verif_dial_hooks::set_connector(Some(Arc::new(move |addr: SocketAddr| {
@@ -406,9 +410,13 @@ fn run_case(prefer_v6: bool, path: PathKind, host: &str, imm: [Option<Res>; 2], 
             }),
             PathKind::Proxy(_) => Box::pin(async {
                 // the proxy URL is what gets resolved and dialed; http scheme: no TLS to the proxy
+                // a proxy of its own: another host than the relay (for `dom`), plain http
                 let mut proxy = url.clone();
                 if proxy.scheme() == "https" {
                     proxy.set_scheme("http").unwrap();
+                }
+                if proxy.host_str() == Some("relay.example.test") {
+                    proxy.set_host(Some(PROXY_HOST)).unwrap();
                 }
                 verif_dial_hooks::dial_url(target.clone(), resolver.clone(), Some(proxy), prefer_v6, iroh_relay::tls::make_dangerous_client_config())
                     .await
@@ -520,6 +528,7 @@ fn run_case(prefer_v6: bool, path: PathKind, host: &str, imm: [Option<Res>; 2], 
             end_group,
             attempts,
             calls: w.calls.clone(),
+            lookup_hosts: w.lookup_hosts.clone(),
             dns: [w.slots[0].accepted.clone(), w.slots[1].accepted.clone()],
             dns_issued: [w.slots[0].issued, w.slots[1].issued],
         }
@@ -553,6 +562,10 @@ fn oracle(prefer_v6: bool, path: PathKind, host: &str, run: &Run, ex: &mut Exec)
             ex.violation("noport-not-rejected", format!("{:?}", run.outcome));
         }
         return;
+    }
+    let want_host = if matches!(path, PathKind::Proxy(_)) { PROXY_HOST } else { "relay.example.test" };
+    if let Some(h) = run.lookup_hosts.iter().find(|h| h.as_str() != want_host) {
+        ex.violation("wrong-lookup-host", format!("resolver asked for `{h}`, the hop goes to `{want_host}`"));
     }
     if run.dns_issued.iter().any(|n| *n > 1) {
         ex.violation("lookup-issued-twice", format!("{:?}", run.dns_issued));
@@ -635,7 +648,10 @@ fn oracle(prefer_v6: bool, path: PathKind, host: &str, run: &Run, ex: &mut Exec)
         if first.fam != pref {
             let t_other = resolved.iter().filter(|r| r.0 != pref).map(|r| r.2).min().unwrap_or(0);
             if let Some(p) = resolved.iter().filter(|r| r.0 == pref && r.3 < first.group).find(|r| r.2 < t_other + RESOLUTION_DELAY) {
-                ex.violation("preferred-family-not-first", format!("first attempt {}.{} at {}, preferred {}.{} had resolved at {}", first.fam, first.id, first.start_ms, p.0, p.1, p.2));
+                // on the proxy path the attempts are those of the proxy hop, which is dialed with
+                // the builder's preference like any other dial
+                let class = if matches!(path, PathKind::Proxy(_)) { "proxy-hop-not-preferred-first" } else { "preferred-family-not-first" };
+                ex.violation(class, format!("first attempt {}.{} at {}, preferred {}.{} had resolved at {}", first.fam, first.id, first.start_ms, p.0, p.1, p.2));
             }
         }
     }
@@ -710,6 +726,18 @@ impl Prop for C15 {
             out.push(format!("{p} dom ok.1.2 ok.7.8 c0=x0,c1=x1,c2=x2,c3=x3"));
             out.push(format!("{p} dom ok.1.2 ok.7.8 a250,a250,a250,a1500,a250,a250,a250"));
             out.push(format!("{p} dom ok.1.2 ok.7.8 a250,a250,c1=ok"));
+        }
+        // the proxy hop is an ordinary dial with the builder's preference: the proxy host resolves
+        // to both families, in both orders and at different distances, for both preferences
+        for p in ["4", "6"] {
+            for letter in ["p", "d"] {
+                for d in [0u64, 10, 49, 50, 60] {
+                    out.push(format!("{p}{letter} dom - - r4=ok.1.2,a{d},r6=ok.7.8,a250,a250,c1=ok"));
+                    out.push(format!("{p}{letter} dom - - r6=ok.7.8,a{d},r4=ok.1.2,a250,a250,c1=ok"));
+                }
+                out.push(format!("{p}{letter} dom ok.1 ok.7 a250,c0=x1,c1=ok"));
+                out.push(format!("{p}{letter} dom - - r4=ok.1+r6=ok.7,a250,c1=ok"));
+            }
         }
         // the same witnesses and boundary cases through the builder's direct and proxy paths
         let base: Vec<String> = out.clone();
